@@ -1,7 +1,9 @@
 /* rculfhash extended scenario: real src/rculfhash.c under the controlled scheduler with every public operation, explicit resizes,
    an abstract RCU flavor whose synchronize_rcu() really waits for the read-side sections open at its start (schedulable spin), and a
    recording bucket allocator whose freed tables are quarantined (every later hooked access into them is reported as UAF).
-   usage: scen_lfhtx PROG SCHED [init_size [max_buckets [mm]]]      mm: o(rder) c(hunk) m(map)
+   usage: scen_lfhtx PROG SCHED [init_size [max_buckets [mm [nr_cpus_mask [create_fail_mask]]]]]      mm: o(rder) c(hunk) m(map)
+   nr_cpus_mask >= 1 (with -DURCU_VERIF_MIN_PARTITION_PER_THREAD_ORDER=0) makes every resize level use the partitioned multi-thread path;
+   create_fail_mask makes chosen pthread_create calls of the run fail with EAGAIN (single-thread fallback for the leftover partitions).
    ops: A<i> add entry i, U<i> add_unique, R<i> add_replace, L<i> lookup (hash,key) of entry i (sets the thread's iterator), N next_duplicate on
    the iterator, X del the iterator's node, P<i> replace the iterator's node by entry i, T full traversal (first/next), Z<k> resize to 2^k, z<d> resize to d (any count),
    C count_nodes.  Each operation is one read-side critical section (resize is called outside any). */
@@ -70,6 +72,8 @@ int main(int argc,char**argv){
   for(int i=0;i<NE;i++){ E[i].key=EK[i]; E[i].id=i; cds_lfht_node_init(&E[i].n); }
   ht=_cds_lfht_new_with_alloc(init,1,maxb,0,mm,&vflavor,&v_alloc,NULL);
   if(!ht){ printf("- new failed\n"); fflush(stdout); _exit(0); }
+  if(argc>6) nr_cpus_mask = atol(argv[6]);
+  if(argc>7) vs_create_fail_mask = strtoul(argv[7],0,0);
   vs_region(&ht->size,sizeof ht->size,"size"); vs_region(&ht->resize_target,sizeof ht->resize_target,"target"); vs_region(E,sizeof E,"E"); vs_region(gen,sizeof gen,"gen");
   vs_region(&ht->resize_mutex,sizeof ht->resize_mutex,"rsmutex"); vs_region(ht,sizeof *ht,"ht");
   printf("- init size %lu max %lu\n", init, maxb);
